@@ -64,10 +64,12 @@ impl Scenario for Inbound {
             v = vec![json!({"split": [3]}), json!({"split": [1, 1, 1]})];
         }
         v.push(json!({"split": [1, 2], "cuts": 12}));
+        // fine mode: the consumer threads run between the I/O thread's individual hand-overs
+        v.push(json!({"split": [1, 2], "fine": true}));
         v
     }
     fn bound(&self, tier: &str, p: &Value) -> usize {
-        if p["cuts"].is_u64() {
+        if p["cuts"].is_u64() || p["fine"] == true {
             return if tier == "thorough" { 2 } else { 1 };
         }
         if tier == "thorough" {
@@ -110,6 +112,10 @@ impl Scenario for Inbound {
         if p["cuts"].is_u64() {
             // many cut positions per delivery (incl. inside the 7-byte frame header)
             cfg.deliver_cut_limit = p["cuts"].as_u64().unwrap() as usize;
+        }
+        cfg.fine = p["fine"] == true;
+        if cfg.fine {
+            cfg.max_steps = 20000;
         }
         Built {
             broker: Box::new(broker),
@@ -670,10 +676,14 @@ impl Scenario for ConsumerRace {
             for bound in [1usize, 16] {
                 v.push(json!({"close": close, "bound": bound}));
             }
+            v.push(json!({"close": close, "bound": 16, "fine": true}));
         }
         v
     }
-    fn bound(&self, tier: &str, _p: &Value) -> usize {
+    fn bound(&self, tier: &str, p: &Value) -> usize {
+        if p["fine"] == true {
+            return if tier == "thorough" { 2 } else { 1 };
+        }
         if tier == "thorough" {
             3
         } else {
@@ -706,6 +716,10 @@ impl Scenario for ConsumerRace {
         }
         let mut cfg = EnvConfig::default();
         cfg.time = false;
+        cfg.fine = p["fine"] == true;
+        if cfg.fine {
+            cfg.max_steps = 20000;
+        }
         Built {
             broker: Box::new(broker),
             cfg,
